@@ -77,7 +77,7 @@ def cmp_value(t):
 
 @st.composite
 def operation(draw, where):
-    kinds = ["inject_def"] * 5 + ["inject_mod"] * 2 + ["import_children", "import_children", "import_single", "import_all",
+    kinds = ["inject_def"] * 5 + ["inject_mod"] * 2 + ["slice_remod"] * 2 + ["import_children", "import_children", "import_single", "import_all",
                                                        "import_host", "import_host", "import_over", "import_mod_ref"]
     if where != "remote":
         kinds += ["mod_src"] * 6
@@ -102,6 +102,14 @@ def operation(draw, where):
         elif key == "src.name":
             sl = draw(st.sampled_from([None, None, "2:", ":3", "1:4", "0"]))
         return ["inject_def", key, unit, sl]
+    if k == "slice_remod":
+        # a host defined through a sliced reference, then assigned again: by a literal of its shape, or by another
+        # sliced reference written as a modification
+        key = draw(st.sampled_from(["src.arr", "src.mat", "src.name"]))
+        sl1, sl2 = draw(st.sampled_from({"src.arr": [("1", "0"), ("1:", "0:2"), (":2", "1:"), ("0", "2")],
+                                         "src.mat": [(":,1", ":,0"), ("0,2", "1,0"), ("1,0:2", "0,1:"), ("1", "0"), (":,2", ":,1")],
+                                         "src.name": [("2:", "1:3"), ("1:4", "0:3"), (":3", "2:")]}[key]))
+        return ["slice_remod", key, sl1, draw(st.sampled_from(["literal", "sliced", "sliced"])), sl2]
     if k == "inject_mod":
         return ["inject_mod", draw(st.sampled_from(["src.len", "src.cnt", "src.flag", "src.cmp", "src.name"])),
                 draw(st.sampled_from([None] + LEN))]
@@ -287,6 +295,26 @@ def build(case):
                 info["unit_change"] = True
             if sl:
                 info["slice"] = True
+        elif k == "slice_remod":
+            _k, key, sl1, how, sl2 = op
+            s = resolve.nodes[key]
+            val = _slice_py(s["value"], sl1)
+            typ = s["type"].split("[")[0]
+            if isinstance(val, list):
+                typ += f"[{len(val)}]"
+            hp = f"h{next(n)}"
+            L.append(f"{hp} {typ} = " + "{" + pre + "?" + key + "}" + f"[{sl1}]")
+            if how == "literal":
+                new = "zz" if isinstance(val, str) else [9.5 + i for i in range(len(val))] if isinstance(val, list) else 9.5
+                L.append(f"{hp} = {lit(new)}" + (f" {s['unit']}" if s["unit"] else ""))
+                info["sliced_host_assigned_a_literal"] = True
+            else:
+                new = _slice_py(s["value"], sl2)
+                L.append(f"{hp} = " + "{" + pre + "?" + key + "}" + f"[{sl2}]")
+                info["sliced_reference_as_modification"] = True
+            final.add(hp, typ, s["unit"], _copy(new))
+            all_hosts.append((hp, True))
+            info["slice"] = True
         elif k == "inject_mod":
             _k, key, unit = op
             if key not in hosts:
